@@ -29,19 +29,26 @@ pub struct GrepLine<'b> {
 
 impl GrepLine<'_> {
     fn expand_tabs(&mut self, tab_cfg: &tabs::TabCfg) {
-        let old_len = self.code.len();
-        self.code = tabs::expand(&self.code, tab_cfg).into();
-        let shift = self.code.len().saturating_sub(old_len);
-        // HACK: it is not necessarily the case that all submatch coordinates
-        // should be shifted in this way. It should be true in a common case of:
-        // (a) the only tabs were at the beginning of the line, and (b) the user
-        // was not searching for tabs.
-        self.submatches = self.submatches.as_ref().map(|submatches| {
+        if !tab_cfg.replace() {
+            return;
+        }
+        // A submatch coordinate moves by the expansion of the tabs that precede it.
+        let old_code = self.code.as_bytes();
+        let shift = |offset: usize| {
+            let n_tabs = old_code[..offset.min(old_code.len())]
+                .iter()
+                .filter(|b| **b == b'\t')
+                .count();
+            offset.saturating_add(n_tabs * (tab_cfg.width().saturating_sub(1)))
+        };
+        let submatches = self.submatches.as_ref().map(|submatches| {
             submatches
                 .iter()
-                .map(|(a, b)| (a + shift, b + shift))
+                .map(|(a, b)| (shift(*a), shift(*b)))
                 .collect()
         });
+        self.code = tabs::expand(&self.code, tab_cfg).into();
+        self.submatches = submatches;
     }
 }
 
@@ -114,7 +121,8 @@ impl StateMachine<'_> {
         }
         let first_path = previous_path.is_none();
         let new_path = first_path || previous_path.as_deref() != Some(&grep_line.path);
-        let line_number_jump = previous_line < &grep_line.line_number.as_ref().map(|n| n - 1);
+        let line_number_jump =
+            previous_line < &grep_line.line_number.as_ref().map(|n| n.saturating_sub(1));
         // Emit a '--' section separator when output contains context lines (i.e. *grep option -A, -B, -C is in effect).
         let new_section = !new_path
             && (previous_line_type == Some(&LineType::Context)
@@ -381,6 +389,14 @@ fn make_style_sections<'a>(
     let mut curr = 0;
     for (start_, end_) in submatches {
         let (start, end) = (*start_, *end_);
+        if start < curr
+            || end < start
+            || !line.is_char_boundary(start)
+            || !line.is_char_boundary(end)
+        {
+            // Not a usable submatch (rg --json is read from untrusted input).
+            continue;
+        }
         if start > curr {
             sections.push((non_match_style, &line[curr..start]))
         };
